@@ -98,6 +98,26 @@ def run(ctx):
             ctx.check('C09.X1', r is None, load.name, 'read_failed:success-without-truncate', load.where(e),
                       'once read_failed is set, success is reported only after Truncate(path, offset)',
                       witness=None if r is None else {'blocks': r[0]})
+    # once bytes of a record have been read (a successful fread), the loop is left towards success only by accepting
+    # the record (offset advances past it) or through Truncate(path, offset): "looks like the end" is not a third way -
+    # what lies behind the last accepted record stays in the file and the next session appends after it
+    nread = 0
+    for bid, b in load.blocks.items():
+        for i, s in enumerate(b['succ']):
+            if s is None:
+                continue
+            efs = load.edge_facts(bid, i)
+            if not any(pol is False and 'fread(' in k and '< 1' in k for k, pol, a in efs):
+                continue
+            nread += 1
+            r = load.find_path(None, lambda x: x['k'] == 'ret' and is_enum('LOAD_SUCCESS')(x.get('e')), from_succ=s,
+                               is_blocker=lambda x: is_trunc(x) or x['k'] == 'ret' or (x['k'] == 'asg' and is_var('offset')(x['l'])),
+                               init_facts=[(k, pol) for k, pol, a in load.edge_facts(bid, i, all=True)] + _const_inits(load))
+            ctx.check('C09.X1', r is None, load.name, 'record-bytes-read:success-without-commit-or-truncate',
+                      'src/deps_log.cc:%s' % load.term(bid)['line'],
+                      'after a successful fread the load succeeds only by accepting the record (offset advances) or through Truncate(path, offset)',
+                      witness=None if r is None else {'blocks': r[0]})
+    ctx.check('C09.X1', nread >= 2, load.name, 'record-reads', load.loc, '%d successful-read edges in the record loop' % nread)
     # a path record whose path is empty once the padding is stripped is malformed (1-3 NUL bytes with a matching
     # checksum): the node is created only where the stripped length is known to be positive
     for e in load.calls('State::GetNode'):
@@ -114,7 +134,7 @@ def run(ctx):
         ok = any(positive(atom) is not None and positive(atom) == pol for k, (pol, atom) in facts.items())
         ctx.check('C09.X1', ok, load.name, 'path-record:empty-path-accepted', load.where(e),
                   'a node is created for a path record only when the path left after stripping the padding is not empty')
-    ctx.floor('C09.X1', 8)
+    ctx.floor('C09.X1', 11)
 
     # ---- O3: truncate offset discipline --------------------------------------------------------
     R('C09.O3', 'O', 'offset advances only after a record was accepted completely (last event of '
